@@ -421,8 +421,9 @@ def gen_templates(seed, tier, parse_cases):
     for _ in range(150 if tier == 'quick' else 3000):
         ts.add(rand_template(rnd, ['merchant', 'type'], ['a', 'b2'], good=rnd.random() < 0.3))
     ts |= {'{a}{b}', '{{a}}', '{{{a}}}', '}}{a}{{', '{a}}', '{a:{b}}', '{}', '{0}{1}', '{a.b.c}', '{a[b]}{c!r:>3}', 'plain', '{ }',
-           '{a b}', '{a-b}', '{_x}', '{é}', '{a}}}{b}'}
-    return sorted(ts)
+           '{a b}', '{a-b}', '{_x}', '{a}}}{b}', '日{a}日'}
+    # outside the ASCII fragment of \w: non-ASCII text inside braces (generated templates never do this)
+    return sorted(t for t in ts if not re.search(r'\{[^{}]*[^\x00-\x7f][^{}]*\}', t))
 
 
 # --------------------------------------------------------------------------- model side (Coq)
